@@ -256,7 +256,7 @@ CHECKS = {
 }
 
 EXTRA = {
-    "C02": "  Later rounds: the schema family with every first step followed by dumps / fresh loads in each format (NextThenRoundTrip); Rebuild (constructor keywords holding the stored trees of sub-configurations); Adopt (a configuration of another root assigned as a sub-configuration); save + load next to dumps + loads, compared as abstract trees; keys with '-' and '.', blank / 16 / 32-character secrets, 60-byte blobs.  Round 7: an unbounded float with the infinities, secrets two list levels down, a second vault type of the same schema object and class name, key rotation between saves (Rekey).",
+    "C02": "  Later rounds: the schema family with every first step followed by dumps / fresh loads in each format (NextThenRoundTrip); Rebuild (constructor keywords holding the stored trees of sub-configurations); Adopt (a configuration of another root assigned as a sub-configuration); save + load next to dumps + loads, compared as abstract trees; keys with '-' and '.', blank / 16 / 32-character secrets, 60-byte blobs.  Round 7: an unbounded float with the infinities, secrets two list levels down, a second vault type of the same schema object and class name, key rotation between saves (Rekey); an imported unsalted digest (a ready-made DigestValue with salt b\"\") assigned to the challenge field and carried through every format.",
     "C03": "  Key-file placement family (harness/props/persistk.py): SchemaK with three config types that may each name a key file x the root on the default or a named key file = 16 placements (quick: all-named + two seeded; thorough: all), real key files per placement, every ciphertext attributed to a key file by independent decryption, key files opened recorded by wrapping builtins.open.  Round 7: SchemaP nl = ListField(ListField(SecureField())), vault2 (one schema object and one class name, two key files), Rekey (every key file gets a new key between two saves; ciphertexts are attributed to the keys on file NOW).",
     "C07": "  Later rounds: malformed contents hex / hex+newline / key+LF / key+CRLF (ExtBad), an external writer replacing or removing the file while a context is open (ExternalDuring), Decrypt probing every 32-byte candidate key.",
     "C08": "  Later rounds: Swap (the key file replaced between operations; stored shapes relative to the key now on file), EncryptPair (two encryptions of one plaintext: distinct IVs), BuildDefault (a secure field with a default), nonce count in the compared state, rare 4 KiB plaintexts.  Round 7: DecryptExtended (1..15 bytes after the last block), FailedOpen (a failed session leaves nothing behind: FailedOpen, Encrypt, Swap, Encrypt).",
